@@ -127,7 +127,9 @@ func Main(t *testing.T, reg Registry) {
 			r.Hash = fmt.Sprintf("%016x", c.hash)
 		}
 		if theTape.Overflowed() {
-			r.Infra = "tape overflow"
+			// more draws than a replay file records: the run still replays from its seed and
+			// index (the values come from the run's own PRNG); counted, not an obstacle
+			c.Count("runs_with_more_draws_than_recorded")
 		}
 		for _, rr := range rl.collect() {
 			if rr.sig == "" {
